@@ -213,7 +213,7 @@ structure Trans (sch : Schema) (P : ObjId → Prop) (s s' : Store) : Prop where
   keepreq : KeepReq sch s s'
 
 theorem Trans.refl (sch : Schema) (P : ObjId → Prop) (s : Store) : Trans sch P s s :=
-  ⟨Sub.refl sch s, fun p b q h h' => by rw [h] at h'; cases h', fun p q h h' => by rw [h] at h'; cases h',
+  ⟨Sub.refl sch s, fun p b q h h' => (by rw [h] at h'; cases h'), fun p q h h' _ => (by rw [h] at h'; cases h'),
    fun _ _ _ _ _ _ _ h => h⟩
 
 theorem Trans.trans {sch : Schema} {P : ObjId → Prop} {s s1 s2 : Store} (h1 : Trans sch P s s1) (h2 : Trans sch P s1 s2) :
